@@ -9,7 +9,8 @@
              parameters recomputed from its definition with brute-force e_d in Python.
              Inputs: weights absent / whole / non-integer (0.5, 1.25, ...); in a quarter of the configurations the observed
              model OBJECT has been fitted before on another hypergraph with the same N and K (buffers kept between fits); in part
-             of those the earlier fit FAILED after training (unwritable output folder / interrupted) and the error was caught.
+             of those the earlier fit FAILED after training (unwritable output folder / interrupted) and the error was caught; in half
+             of them it is ONE Hypergraph object, fitted, edited in place (same numbers of nodes and hyperedges) and fitted again.
 """
 import itertools
 import json
@@ -157,7 +158,53 @@ def config(rng, i, tier):
         if pw is not None:
             rng.shuffle(pw)
         cfg["refit_after"] = {"edges": pe, "weights": pw, "seed": rng.randrange(1, 10 ** 6)}
+        # half of these histories happen to ONE Hypergraph object: it is fitted, edited in place (remove_edge / add_edge /
+        # set_weight) into the observed hypergraph and fitted again by the same model object.  Nothing derived from the object's
+        # earlier content may survive; the edits that keep the numbers of nodes and hyperedges are the interesting ones: the
+        # permuted copy above, the same hyperedges with other weights, one hyperedge exchanged for another one
+        if rng.random() < 0.5:
+            prev = cfg["refit_after"]
+            prev["inplace"] = True
+            r = rng.random()
+            if r < 0.35 and weights is not None and len(set(weights)) > 1:
+                pw = list(weights)
+                while pw == list(weights):
+                    rng.shuffle(pw)
+                prev["edges"], prev["weights"] = list(edges), pw
+            elif r < 0.7:
+                pe = list(edges)
+                for _ in range(20):
+                    other = tuple(sorted(rng.sample(range(1, cfg["N"] + 1), rng.randint(2, min(4, cfg["N"])))))
+                    if other not in pe:
+                        pe[rng.randrange(len(pe))] = other
+                        break
+                if len({n for e in pe for n in e}) >= K + 1:
+                    prev["edges"], prev["weights"] = pe, (None if weights is None else list(weights))
     return cfg
+
+
+def edit_into(h, labels, edges, weights, rng):
+    """edit the Hypergraph object in place until it holds exactly `edges` (with `weights`): public calls only"""
+    lab = lambda i: labels[i - 1]
+    target = {frozenset(lab(i) for i in e): (None if weights is None else weights[j]) for j, e in enumerate(edges)}
+    with quiet():
+        for e in list(h.get_edges()):
+            if frozenset(e) not in target:
+                h.remove_edge(e)
+        present = {frozenset(e): e for e in h.get_edges()}
+        items = list(target.items())
+        rng.shuffle(items)
+        for fs, w in items:
+            if fs in present:
+                if w is not None and h.get_weight(present[fs]) != w:
+                    h.set_weight(present[fs], w)
+            else:
+                e = list(fs)
+                rng.shuffle(e)
+                if w is None:
+                    h.add_edge(tuple(e))
+                else:
+                    h.add_edge(tuple(e), weight=w)
 
 
 def failed_history(cfg, rng):
@@ -281,8 +328,8 @@ def probe_class():
 
 
 def fit_mt(cfg, h, probe=False, edges_rows=(), global_offset=0, before=None):
-    """before = (hypergraph, seed, failed): the SAME model object is first fitted on that hypergraph; what is observed is its next
-    fit.  failed = "output": that fit is asked to write its results into a folder that cannot exist (it raises after training);
+    """before = (hypergraph, seed, failed[, edit]): the SAME model object is first fitted on that hypergraph; what is observed is its
+    next fit; edit() is called between the two (it may edit the hypergraph objects and returns the hyperedges as row tuples).  failed = "output": that fit is asked to write its results into a folder that cannot exist (it raises after training);
     "interrupt": it is interrupted in a realisation after the first (observer only); the caller catches the error and goes on"""
     from hypergraphx.communities.hypergraph_mt.model import HypergraphMT
     if probe:
@@ -309,6 +356,8 @@ def fit_mt(cfg, h, probe=False, edges_rows=(), global_offset=0, before=None):
                 raise
         if probe:
             m.verif_abort_at = None
+        if len(before) > 3 and before[3] is not None:
+            edges_rows = before[3]()             # the hypergraph object is edited in place between the two fits
     if hk is not None:
         del hk.EVENTS[:]
     m.verif_cond, m.verif_edges = [], list(edges_rows)
@@ -327,14 +376,21 @@ def observe(cfg, idx):
     rng = random.Random(cfg["seed"])
     labels = LABELS[cfg["family"]](cfg["N"])
     N, K = cfg["N"], cfg["K"]
-    h = build_hypergraph(labels, cfg["edges"], cfg["weights"], rng)
-    inc, row2id = rows_of(h, labels)
-    id2row = {i: r for r, i in enumerate(row2id)}
-    edges = [list(e) for e in cfg["edges"]]
-    info = {"raised": []}
-    hy = mt = tr = None
     prev = cfg.get("refit_after")
+    inplace = bool(prev and prev.get("inplace"))
     h_prev = build_hypergraph(labels, [tuple(e) for e in prev["edges"]], prev["weights"], rng) if prev else None
+    if inplace:
+        # ONE object: it holds the earlier hyperedges now and is edited into the observed hypergraph between the two fits
+        h = h_prev
+        h_sc = build_hypergraph(labels, [tuple(e) for e in prev["edges"]], prev["weights"], rng)
+        inc = row2id = id2row = None
+    else:
+        h = h_sc = build_hypergraph(labels, cfg["edges"], cfg["weights"], rng)
+        inc, row2id = rows_of(h, labels)
+        id2row = {i: r for r, i in enumerate(row2id)}
+    edges = [list(e) for e in cfg["edges"]]
+    info = {"raised": [], "inplace": inplace}
+    hy = mt = tr = None
     # ---- HySC
     with quiet():
         try:
@@ -343,9 +399,14 @@ def observe(cfg, idx):
                 np.random.seed((cfg["seed"] + 7919 * attempt) % (2 ** 32))
                 model = HySC(seed=cfg["seed"])
                 if prev and attempt == 0:            # the observed object has been fitted before; the second one is fresh
-                    model.fit(h_prev, K=K, weighted_L=cfg["weighted_L"])
-                outs.append(np.array(model.fit(h, K=K, weighted_L=cfg["weighted_L"])))
+                    model.fit(h_sc if inplace else h_prev, K=K, weighted_L=cfg["weighted_L"])
+                    if inplace:
+                        edit_into(h_sc, labels, cfg["edges"], cfg["weights"], rng)
+                outs.append(np.array(model.fit(h_sc, K=K, weighted_L=cfg["weighted_L"])))
             a = outs[0]
+            if inplace:
+                _, r2 = rows_of(h_sc, labels)
+                id2row = {i: r for r, i in enumerate(r2)}
             code = lambda x: 0 if x == 0 else (1 if x == 1 else 2)
             if a.ndim == 2 and a.shape[0] == N:
                 out = [[code(float(a[id2row[i], k])) for k in range(a.shape[1])] for i in range(1, N + 1)]
@@ -357,8 +418,17 @@ def observe(cfg, idx):
     # ---- Hypergraph-MT
     with quiet():
         try:
-            E_rows = [tuple(int(r) for r in inc[:, [j]].nonzero()[0]) for j in range(inc.shape[1])]
-            m, u, w, L, ev = fit_mt(cfg, h, probe=True, edges_rows=E_rows, before=(h_prev, prev["seed"], prev.get("failed")) if prev else None)
+            def e_rows():
+                return [tuple(int(r) for r in inc[:, [j]].nonzero()[0]) for j in range(inc.shape[1])]
+
+            def edit():
+                nonlocal inc, row2id, id2row
+                edit_into(h, labels, cfg["edges"], cfg["weights"], rng)
+                inc, row2id = rows_of(h, labels)
+                id2row = {i: r for r, i in enumerate(row2id)}
+                return e_rows()
+            m, u, w, L, ev = fit_mt(cfg, h, probe=True, edges_rows=() if inplace else e_rows(),
+                                    before=(h_prev, prev["seed"], prev.get("failed"), edit if inplace else None) if prev else None)
             m2, u2, w2, L2, _ = fit_mt(cfg, h, global_offset=1)
         except Exception as ex:
             info["raised"].append(("HypergraphMT.fit", repr(ex)))
@@ -570,6 +640,7 @@ def validate(res, tier, rng, only=None):
             with_isolated_nodes=sum(1 for c in cfgs if c["N"] > len({n for e in c["edges"] for n in e})),
             model_object_fitted_before=sum(1 for c in cfgs if c.get("refit_after")),
             model_object_previous_fit_failed=sum(1 for c in cfgs if c.get("refit_after") and c["refit_after"].get("failed")),
+            hypergraph_object_edited_in_place_between_fits=sum(1 for c in cfgs if c.get("refit_after") and c["refit_after"].get("inplace")),
             non_integer_weights=sum(1 for c in cfgs if c["weights"] and any(x != int(x) for x in c["weights"])),
             hooks_installed=hooks() is not None, validator_selftests=len(selfc) + len(selft))
     if traces:
